@@ -48,4 +48,13 @@ LEVEL["C02"] = {
     "design_ref": "DESIGN.md 4/C02", "note": _NOTE, "technique": "Lean 4 proof (parser completeness + soundness w.r.t. a tree grammar, fuel monotonicity) + correspondence check",
 }
 
+LEVEL["C06"] = {
+    "text": "Lean theorems for every operand pair and both managers: never a panic; Null propagation; second operand converted to the first operand's type; the same-type table is the host arithmetic (rfl-facts per operator and type); result types; comparison consistency (string order proved total, integer/date orders via omega); undefined operations are errors; list semantics of IN and indexing. Tied to the Go operators by the full boundary matrix compared bit-exactly with the compiled model plus direct consistency oracles. Partial: order consistency of float <=/>= and the numerical meaning of '^' rest on the host (checked by the stream, not proved).",
+    "design_ref": "DESIGN.md 4/C06", "note": _NOTE, "technique": "Lean 4 proof (decision logic stated outright, case analysis over operator x type) + correspondence check",
+}
+LEVEL["C07"] = {
+    "text": "Lean theorems: a successful conversion has the requested type; Object/own type return the value unchanged; the type-safe manager permits exactly the six numeric widenings and agrees with the type-unsafe one; integer<->long, boolean<->integer/long/string, integer/long<->time span (tight range), <->date-time and <->decimal string (all 64-bit values) round-trip. Tied to the Go converters by the full boundary matrix x 11 targets x 2 managers and direct round-trip oracles. Partial: round trips through float/double are host facts (stream only).",
+    "design_ref": "DESIGN.md 4/C07", "note": _NOTE, "technique": "Lean 4 proof (case analysis over source x target, decimal print/parse inverse) + correspondence check",
+}
+
 NOT_APPLICABLE = {}
